@@ -234,6 +234,12 @@ func spellings(t *Ty, v *Lit, site string) []*Case {
 		out = append(out, mk("var-in-list2", L(t), nil, []VarDef{{"v", t, nil}}, lList(lVar("v"), v), one(j)))
 		out = append(out, mk("var-in-obj", N("W"), nil, []VarDef{{"v", t, nil}}, lObj("w", lVar("v")), one(j)))
 		out = append(out, mk("var-in-obj-as-item", L(N("W")), nil, []VarDef{{"v", t, nil}}, lObj("w", lVar("v")), one(j)))
+		// CoerceVariableValues only looks at declared variables: a value for an undeclared one is ignored
+		out = append(out, mk("var-extra-undeclared", t, nil, []VarDef{{"v", t, nil}}, lVar("v"), map[string]interface{}{"v": j, "undeclared": j}))
+		out = append(out, mk("lit-extra-undeclared", t, nil, nil, v, map[string]interface{}{"v": j}))
+		// a variable whose type is not an input type / does not exist never gets as far as coercion
+		out = append(out, mk("var-output-type", t, nil, []VarDef{{"v", N("Query"), nil}}, lVar("v"), one(j)))
+		out = append(out, mk("var-unknown-type", t, nil, []VarDef{{"v", L(N("Nowhere")), nil}}, lVar("v"), one(j)))
 		if v.K == 'i' && v.Int.IsInt64() {
 			out = append(out, mk("var-goint", t, nil, []VarDef{{"v", t, nil}}, lVar("v"), one(goInt(v.Int.Int64()))))
 		}
@@ -469,6 +475,11 @@ func randomCase(r *rng.R, site string) *Case {
 	}
 	c.VarDefs = g.vds
 	c.Vars = g.vars
+	if r.Chance(1, 6) { // a value for a variable the operation does not declare
+		if j, ok := rng.Pick(r, g.uni).json(); ok {
+			c.Vars["undeclared"] = j
+		}
+	}
 	return c
 }
 
